@@ -45,7 +45,7 @@ def ITSpec (cfg : Cfg) : Prop :=
     (initializeTracks s).pending = s.pending ∧
     (initializeTracks s).c.numGenerated = s.c.numGenerated
 
-theorem itSpec_none {cfg : Cfg} (hord : cfg.order = .none) : ITSpec cfg :=
+theorem itSpec_none {cfg : Cfg} (hord : cfg.order ≠ .initCharge) : ITSpec cfg :=
   fun _ hL hC hcap hvac hnvac hst hocc => it_spec_none hord hL hC hcap hvac hnvac hst hocc
 
 theorem efs_error_pending {s s' : State} {e : Err}
